@@ -133,22 +133,37 @@ func sendProgram(rep *Report, rc rtCase, c *websocket.Conn, effThreshold int, rn
 		}
 		var err error
 		if m.API == "write" {
-			private := append([]byte(nil), chunks[0]...)
-			err = c.Write(ctx, typ, chunks[0])
-			if !bytes.Equal(private, chunks[0]) {
+			// the caller's buffer is write-protected for the duration of the call (ws.Lend): a store into it at
+			// any moment faults, also one that is undone before the call returns
+			ro, lent, lerr := ws.Lend(chunks[0])
+			if lerr != nil {
+				return out, lerr
+			}
+			if f := ws.WithFaults(func() { err = c.Write(ctx, typ, lent) }); f != "" {
+				rep.miss("caller-buffer-written-during-call", rc, fmt.Sprintf("message %d (%d bytes): %s", mi, len(lent), f))
+				err = fmt.Errorf("store into the caller's buffer")
+			} else if !bytes.Equal(lent, chunks[0]) {
 				rep.miss("caller-buffer-modified", rc, fmt.Sprintf("message %d", mi))
 			}
+			ro.Release()
 		} else {
 			w, werr := c.Writer(ctx, typ)
 			err = werr
 			if err == nil {
 				for _, ch := range chunks {
-					private := append([]byte(nil), ch...)
-					if _, err = w.Write(ch); err != nil {
-						break
+					ro, lent, lerr := ws.Lend(ch)
+					if lerr != nil {
+						return out, lerr
 					}
-					if !bytes.Equal(private, ch) {
+					if f := ws.WithFaults(func() { _, err = w.Write(lent) }); f != "" {
+						rep.miss("caller-buffer-written-during-call", rc, fmt.Sprintf("message %d (chunk of %d bytes): %s", mi, len(lent), f))
+						err = fmt.Errorf("store into the caller's buffer")
+					} else if !bytes.Equal(lent, ch) {
 						rep.miss("caller-buffer-modified", rc, fmt.Sprintf("message %d", mi))
+					}
+					ro.Release()
+					if err != nil {
+						break
 					}
 				}
 				if err == nil {
